@@ -117,6 +117,15 @@ func (g *cqlGen) mutation(tok string) string {
 	funcHere := p == "func" && !funcInWhere
 	switch kind {
 	case 0: // INSERT
+		if (p == "" || p == "lwt") && g.pick(4) == 3 {
+			// the JSON form, with its optional DEFAULT clause between the document and the condition
+			s := "INSERT INTO " + g.table() + " JSON '{\"k\": \"" + tok + "\", \"c0\": 1}'" + []string{"", " DEFAULT NULL", " DEFAULT UNSET", " default unset"}[g.pick(4)]
+			if p == "lwt" {
+				s += []string{" IF NOT EXISTS", " if not exists"}[g.pick(2)]
+				g.placed = true
+			}
+			return s + g.using()
+		}
 		n := 1 + g.pick(3)
 		cols, vals := []string{"k"}, []string{"'" + tok + "'"}
 		pos := g.pick(n)
